@@ -133,6 +133,8 @@ impl ContinuityStreamCache {
         if writer.flush().is_err() {
             return;
         }
+        #[cfg(rip_verif)]
+        rip_kernel::verif::point("cache.full");
 
         // Best-effort indexes (rebuildable caches) to avoid full sidecar scans.
         if event.seq.is_multiple_of(SEEK_INDEX_STRIDE_EVENTS_V1) {
@@ -150,11 +152,18 @@ impl ContinuityStreamCache {
             insert_message_best_effort_v1(&msg_path, &path, &event.id, event.seq, offset);
         }
 
+        #[cfg(rip_verif)]
+        rip_kernel::verif::point("cache.indexes");
+
         // Additional cache: messages+runs-only sidecar + indexes.
         self.append_messages_runs_best_effort_v1(event);
+        #[cfg(rip_verif)]
+        rip_kernel::verif::point("cache.mr");
 
         // Additional cache: compaction checkpoints only (summary selection).
         self.append_compaction_checkpoints_best_effort_v1(event);
+        #[cfg(rip_verif)]
+        rip_kernel::verif::point("cache.comp");
     }
 
     pub(crate) fn rebuild_best_effort(&self, continuity_id: &str, events: &[Event]) {
@@ -228,6 +237,9 @@ impl ContinuityStreamCache {
             return;
         }
 
+        #[cfg(rip_verif)]
+        rip_kernel::verif::point("cache.mr.line");
+
         // Best-effort indexes (rebuildable caches).
         let seek_path = self.messages_runs_seq_index_path_v1(continuity_id);
         // Record seek entries for every message event; offsets are still monotonic and allow
@@ -278,6 +290,8 @@ impl ContinuityStreamCache {
             return;
         }
         let _ = writer.flush();
+        #[cfg(rip_verif)]
+        rip_kernel::verif::point("cache.comp.line");
 
         if let Some(entry) = CompactionCheckpointIndexEntryV1::from_event(event) {
             let idx_path = self.compaction_checkpoints_index_path_for_v1(continuity_id);
